@@ -27,7 +27,7 @@ LEVEL = "exploration"
 TECHNIQUE = "property-based testing of concurrent requesters under a deterministic scheduler (PRNG schedules + parked line-level preemptions), history invariants checked on the wire"
 RULE = (
     "Case = 1..5 requester threads x 1..3 calls with start offsets, per-request peer action (reply after d < T3 | reply "
-    "after T3 | never), unsolicited primaries at generated times, 0..2 link drops with reconnect, initial system counter "
+    "after T3 | never | drop the link on reading the request), unsolicited primaries at generated times, 0..2 link drops with reconnect, initial system counter "
     "(incl. 2^32-3..2^32-1 wrap), schedule seed, switch probability and preemption probability in {get_next_system_counter, "
     "_get_queue_for_system, _remove_queue, send_and_waitfor_response, _dispatcher_thread_function}; frames due at the same instant "
     "arrive one by one, back-to-back or in one segment; a quarter of the cases is a focused burst family (immediate replies and "
@@ -43,7 +43,7 @@ ASSUMPTIONS = [
 BUDGET_S = {"quick": 110, "thorough": 1200}
 
 T3 = 5.0
-HOT = ("get_next_system_counter", "_get_queue_for_system", "_remove_queue", "send_and_waitfor_response", "_dispatcher_thread_function")
+HOT = ("get_next_system_counter", "_get_queue_for_system", "_remove_queue", "send_and_waitfor_response", "_dispatcher_thread_function", "send_message", "_receiver_thread_function")
 
 
 @st.composite
@@ -53,7 +53,7 @@ def case_strategy(draw):
     for j in range(nreq):
         calls = []
         for k in range(draw(st.integers(1, 3))):
-            act = draw(st.sampled_from(["reply", "reply", "reply", "late", "never"]))
+            act = draw(st.sampled_from(["reply", "reply", "reply", "reply", "reply", "reply", "late", "late", "never", "never", "drop"]))
             calls.append({"act": act, "delay": draw(st.sampled_from([0.0, 0.05, 0.2, 0.5, 1.0, 3.0]))})
         reqs.append({"start": draw(st.sampled_from([0.0, 0.0, 0.01, 0.1, 0.3])), "calls": calls})
     unsol = draw(st.lists(st.sampled_from([0.0, 0.05, 0.15, 0.3, 0.6, 1.0, 2.0, 6.0]), max_size=5))
@@ -204,6 +204,13 @@ def run_case(case, observe=None):
                             spec = case["reqs"][jj]["calls"][kk]
                         except Exception:
                             spec = None
+                        if spec is not None and spec["act"] == "drop" and not sock.closed:
+                            # the peer drops the link the moment it reads this request: EOF handling races whatever the
+                            # other requesters are sending at the same instant
+                            f["dropped"] = True
+                            inbox.append(f)
+                            sock.close()
+                            break
                         if spec is not None and spec["act"] == "reply" and spec["delay"] == 0.0 and not sock.closed:
                             try:
                                 sock.send(e37.data_frame(0, 10, 4, 0, f["system"], e5.encode(("B", b"\x00"))))
@@ -219,10 +226,14 @@ def run_case(case, observe=None):
         n_drops = 0
         garbled = []
 
+        actor_drops = [0]
+
         def process_inbox():
             new_frames, inbox[:] = list(inbox), []
             rig.frames_out.extend(new_frames)
             for f in new_frames:
+                if f.get("dropped"):
+                    actor_drops[0] += 1
                 if f["stype"] == e37.DATA and (f["stream"], f["function"]) == (10, 3):
                     try:
                         item = e5.decode_all(f["body"])
@@ -251,6 +262,13 @@ def run_case(case, observe=None):
                 unsol.pop(0)
                 usys[0] += 1
                 pending.append((sim.now, e37.data_frame(0, 1, 1, 1, usys[0]), ("unsol", usys[0])))
+            if actor_drops[0] and link_up:
+                actor_drops[0] = 0
+                link_up = False
+                n_drops += 1
+                t_reconnect = sim.now + 1.0
+                pending = [p for p in pending if p[2][0] == "unsol"]
+            actor_drops[0] = 0
             if drops and drops[0] <= sim.now and link_up:
                 drops.pop(0)
                 rig.peer.close()
@@ -264,7 +282,7 @@ def run_case(case, observe=None):
                 if not _reconnect(rig, sim, 0x7700 + n_drops, inbox):
                     return Failure("reconnect-failed", case, f"{rig.state()} {sim.blocked_report()}", "SELECTED again")
                 link_up = True
-            if link_up:
+            if link_up and not rig.peer.closed:
                 pending.sort(key=lambda p: p[0])
                 # frames due at the same instant arrive as a burst (one segment | back-to-back segments), or one by one with
                 # the endpoint going idle in between ("settled")
@@ -273,6 +291,8 @@ def run_case(case, observe=None):
                 while pending and pending[0][0] <= sim.now:
                     due.append(pending.pop(0))
                 for _, data, kind in due:
+                    if rig.peer.closed:
+                        break  # the peer actor dropped the link in the meantime (handled in the next round)
                     if burst != "joined":
                         rig.peer.send(data)
                     if kind[0] == "unsol":
@@ -281,7 +301,7 @@ def run_case(case, observe=None):
                         replies_sent[kind[1]] = sim.now
                     if burst == "settled":
                         sim.settle()
-                if due and burst == "joined":
+                if due and burst == "joined" and not rig.peer.closed:
                     rig.peer.send(b"".join(d[1] for d in due))
                 if due and burst != "settled":
                     sim.settle()
@@ -368,7 +388,7 @@ def run_case(case, observe=None):
 
 def plan(tier, seed):
     quick = tier == "quick"
-    return [("gen", {"shard": i, "n": 60 if quick else 1200}) for i in range(16)]
+    return [("gen", {"shard": i, "n": 120 if quick else 1200}) for i in range(16)]
 
 
 def run_task(name, kw, ctx):
@@ -389,6 +409,8 @@ def run_task(name, kw, ctx):
             cls.append("link-drop")
         if obs.get("stay_down"):
             cls.append("link-stays-down")
+        if any(c["act"] == "drop" for r in case["reqs"] for c in r["calls"]):
+            cls.append("peer-drops-link-on-a-request")
         if obs.get("preempt_hits"):
             cls.append("preemption-hit")
         if obs.get("dispatchers_alive", 0) > 1:
